@@ -121,7 +121,7 @@ func loadOp[T any](ctor string, body []byte, load func([]byte) (T, error), print
 	rawErr := backup.VerifDecodeStrictJSON(body, &raw)
 	loaded, err := load(body)
 	same := err == nil && rawErr == nil && reflect.DeepEqual(loaded, raw)
-	return vh.App(ctor, hexb(body), pOpt(rawErr == nil, print(raw)), pRes(err, vh.B(same))), resLabel(err)
+	return vh.App(ctor, jsonb(body), pOpt(rawErr == nil, print(raw)), pRes(err, vh.B(same))), resLabel(err)
 }
 
 // variant builds the document for a load op: mode 0 canonical, 1 text-perturbed,
@@ -239,7 +239,7 @@ func runCodecOp(o op) (string, string) {
 		loaded, lerr := backup.LoadCompleteMarker(kb, mb)
 		same := lerr == nil && rawkErr == nil && loaded == rawk
 		s := sha256.Sum256(mb)
-		return vh.App("CLoadMarker", hexb(kb), hexb(mb), pOpt(rawkErr == nil, pCM(rawk)), pOpt(rawmErr == nil, pAM(rawm)),
+		return vh.App("CLoadMarker", jsonb(kb), jsonb(mb), pOpt(rawkErr == nil, pCM(rawk)), pOpt(rawmErr == nil, pAM(rawm)),
 			str(hex.EncodeToString(s[:])), pRes(lerr, vh.B(same))), "load_marker/" + label + "/" + resLabel(lerr)
 	case "new_marker":
 		am := genArchiveManifest(r)
@@ -248,7 +248,7 @@ func runCodecOp(o op) (string, string) {
 		rawmErr := backup.VerifDecodeStrictJSON(mb, &rawm)
 		marker, err := backup.NewCompleteMarker(mb)
 		s := sha256.Sum256(mb)
-		return vh.App("CNewMarker", hexb(mb), pOpt(rawmErr == nil, pAM(rawm)), str(hex.EncodeToString(s[:])),
+		return vh.App("CNewMarker", jsonb(mb), pOpt(rawmErr == nil, pAM(rawm)), str(hex.EncodeToString(s[:])),
 			pRes(err, pCM(marker))), "new_marker/" + coarse(label) + "/" + resLabel(err)
 	case "marshal_slot":
 		m := genSlotManifest(r, uint16(r.IntN(256)), true)
@@ -258,7 +258,7 @@ func runCodecOp(o op) (string, string) {
 			perturbStruct(r, &m)
 		}
 		body, err := backup.MarshalSlotManifest(m)
-		return vh.App("CMarshalSlot", pSM(m), pRes(err, hexb(body))), "marshal_slot/" + label + "/" + resLabel(err)
+		return vh.App("CMarshalSlot", pSM(m), pRes(err, jsonb(body))), "marshal_slot/" + label + "/" + resLabel(err)
 	case "marshal_archive":
 		m := genArchiveManifest(r)
 		label := "valid"
@@ -267,7 +267,7 @@ func runCodecOp(o op) (string, string) {
 			perturbStruct(r, &m)
 		}
 		body, err := backup.MarshalArchiveManifest(m)
-		return vh.App("CMarshalArchive", pAM(m), pRes(err, hexb(body))), "marshal_archive/" + label + "/" + resLabel(err)
+		return vh.App("CMarshalArchive", pAM(m), pRes(err, jsonb(body))), "marshal_archive/" + label + "/" + resLabel(err)
 	case "marshal_msg":
 		m := genMsgManifest(r)
 		label := "valid"
@@ -276,7 +276,7 @@ func runCodecOp(o op) (string, string) {
 			perturbStruct(r, &m)
 		}
 		body, err := backup.MarshalMessageChunkManifest(m)
-		return vh.App("CMarshalMsg", pMM(m), pRes(err, hexb(body))), "marshal_msg/" + label + "/" + resLabel(err)
+		return vh.App("CMarshalMsg", pMM(m), pRes(err, jsonb(body))), "marshal_msg/" + label + "/" + resLabel(err)
 	case "marshal_marker":
 		m := genMarker(r)
 		label := "valid"
@@ -285,7 +285,7 @@ func runCodecOp(o op) (string, string) {
 			perturbStruct(r, &m)
 		}
 		body, err := backup.MarshalCompleteMarker(m)
-		return vh.App("CMarshalMarker", pCM(m), pRes(err, hexb(body))), "marshal_marker/" + label + "/" + resLabel(err)
+		return vh.App("CMarshalMarker", pCM(m), pRes(err, jsonb(body))), "marshal_marker/" + label + "/" + resLabel(err)
 	case "marshal_repo":
 		m := genRepoMarker(r)
 		label := "valid"
@@ -294,7 +294,7 @@ func runCodecOp(o op) (string, string) {
 			perturbStruct(r, &m)
 		}
 		body, err := backup.MarshalRepositoryMarker(m)
-		return vh.App("CMarshalRepo", pRM(m), pRes(err, hexb(body))), "marshal_repo/" + label + "/" + resLabel(err)
+		return vh.App("CMarshalRepo", pRM(m), pRes(err, jsonb(body))), "marshal_repo/" + label + "/" + resLabel(err)
 	case "new_msg":
 		m := genMsgManifest(r)
 		label := "valid"
@@ -408,6 +408,7 @@ func genCodec(r *rand.Rand, big bool) input {
 }
 
 func runCodec(in input) vh.Result {
+	resetStrings()
 	var terms []string
 	class := ""
 	for _, o := range in.Ops {
@@ -421,7 +422,7 @@ func runCodec(in input) vh.Result {
 		}
 	}
 	return vh.Result{
-		Coq:     vh.App("CaseCodec", vh.List(terms)),
+		Coq:     withStrings(vh.App("CaseCodec", vh.List(terms))),
 		Obs:     map[string]any{"ops": len(terms), "first": class},
 		Class:   "codec/" + class,
 		Trivial: len(terms) == 0,
